@@ -5,7 +5,7 @@ not behaviour-preserving after all) and exit 2 a construct the machinery cannot 
 import glob, os, subprocess, sys
 MAP = {"optics": ["C01", "C02", "C03", "C04"], "pipeseq": ["C05", "C06", "C07", "C11", "C12", "C13"], "unbound": ["C08"],
        "fork": ["C09", "C10"], "iter": ["C14", "C15"], "duct": ["C16"], "pure": ["C17", "C10"], "skiplist": ["C18"],
-       "seqadt": ["C19"], "pipen": ["C20"]}
+       "seqadt": ["C19"], "pipen": ["C20"], "pipetime": ["C06", "C11", "C13"]}
 root = sys.argv[1]
 groups = sys.argv[2:] or list(MAP)
 def sh(c, **k):
